@@ -32,7 +32,7 @@ RULE = ('a case = 1-3 synthetic data sets of one format (MVF v4 in-memory telsta
         'compscans() run to exhaustion; on concatenations with several subarrays / windows the same after '
         'select(subarray=s, spw=w) for every pair (s, w) plus a fixed pol / ants / inputs / corrprods / freqrange history.  Non-trivial: at least 2 parts opened and a selection that keeps dumps of at '
         'least two parts; distinct by the generated case (seed)')
-ASSUMPTIONS = ['parts of a case cover disjoint time ranges (compatible data sets); overlapping parts are not generated',
+ASSUMPTIONS = ['overlapping parts (kind=overlap) shifted by a fraction of a dump have no common dump grid for C02\'s observation: they get the model-free battery of index-free criteria',
                'select histories on concatenations with several merged subarrays / spectral windows start with '
                'select(subarray=s, spw=w) and do not name spw / subarray again (Model/ConcatMulti.v); v3+v4 mixtures (no '
                'common dump grid) get a model-free battery of index-free criteria against the stand-alone parts',
@@ -42,8 +42,10 @@ ASSUMPTIONS = ['parts of a case cover disjoint time ranges (compatible data sets
                'integer dummy -1 is stored as; Model/Concat.v spec_dummy_u), b = the width of numpy\'s promotion of the '
                'dtypes of the parts that have the sensor; uint64 sensors are not generated (2^64 - 1 does not fit the 63-bit '
                'integers of the extracted driver; the theorems hold for any width)',
-               'parts whose subarrays / spectral windows differ in the NUMBER of products / channels are not generated '
-               '(the v4 indexers of such a concatenation raise on any data access)',
+               'parts whose subarrays / spectral windows differ in the NUMBER of products / channels (kind=sizes): open level, '
+               'metadata, input order and, for every (subarray, spw) pair with dumps, all four arrays completely and under an int / '
+               'strided slice / mask head against the glued stand-alone parts (Model/ConcatData.v ds_getitem_sized); no select '
+               'histories; v4 parts: open finding C19-F5',
                'second-stage indices are restricted to the forms C05 proves for ConcatenatedLazyIndexer: no negative '
                'steps, no empty head slice whose start lies in a later part than its stop, no empty tail selection '
                '(open findings F10 / F10b / F30b of C05), integer lists sorted',
@@ -118,6 +120,16 @@ def gen_case(rng):
         starts[1] = starts[0] + rng.choice([1, 2, 3, 4, 5])
         if rng.random() < 0.5:
             force_T = {0: rng.randint(6, 7), 1: rng.randint(2, 3)}     # the second part lies INSIDE the first: it ends earlier
+    elif k >= 2 and 0.54 <= special < 0.60 and not mixed and fmts[0] != 'v1':
+        # parts of another SIZE: a spectral window with another number of channels and / or a subarray with another
+        # number of antennas (correlation products)
+        kind = 'sizes'
+        how = rng.choice(['chans', 'prods', 'both'])
+        for i in some_parts():
+            if how in ('chans', 'both'):
+                var[i]['F'] = 6 - F
+            if how in ('prods', 'both'):
+                ants[i] = ('m000', 'm001', 'm062')
     elif k >= 2 and special < 0.11:
         kind = 'period'
         # clearly different, or different only beyond the 6 significant digits the error message prints
@@ -179,7 +191,7 @@ def gen_case(rng):
             sens['u'] = (uwidths[i], gen_events(rng, T, [0, 3, 200, 255], first=rng.random() < 0.8, maxn=2) or [(0, 3)])
         if present['b'][i]:
             sens['b'] = ('b', gen_events(rng, T, [True, False], first=rng.random() < 0.8, maxn=2) or [(0, True)])
-        spec = dict(fmt=fmts[i], T=T, start=starts[i], dt=dts[i], ants=list(ants[i]), F=F, cfv=cfv[i],
+        spec = dict(fmt=fmts[i], T=T, start=starts[i], dt=dts[i], ants=list(ants[i]), F=var[i].pop('F', F), cfv=cfv[i],
                     acts=gen_events(rng, T, STATES_RAW, maxn=3), targets=gen_events(rng, T, pool, maxn=2),
                     labels=gen_events(rng, T, c02.LABELS[1:] + [''], first=rng.random() < 0.7, maxn=2),
                     sens=sens, arrs=({'a': [rng.randint(-3, 9) for _ in range(T)]} if arr_present[i] else {}),
@@ -1169,6 +1181,79 @@ def multi_criteria(rng, tw, T):
     return out
 
 
+def stage_sizes(cs, c, twins, arrays, sorted_idx):
+    """Parts whose spectral windows / subarrays differ in SIZE: after select(subarray=s, spw=w) every array of the whole
+    is the glued stored arrays of the parts of that subarray and window (the others have no selected dump).  h5 parts
+    deliver that; v4 parts raise on every access (open finding C19-F5).  Model: wire_196 (ds_getitem_sized)."""
+    ctx = cs.ctx
+    segs = [int(x) for x in c._segments]
+    tws = [twins[i] for i in sorted_idx]
+    arrs = [arrays[i] for i in sorted_idx]
+    strict = 'v4' in cs.fmt
+    msubs, mspws = [sub_key(x) for x in c.subarrays], [spw_key(x) for x in c.spectral_windows]
+    for s in range(len(msubs)):
+        for w in range(len(mspws)):
+            members = [i for i, tw in enumerate(tws) if sub_key(tw.subarrays[0]) == msubs[s] and spw_key(tw.spectral_windows[0]) == mspws[w]]
+            if not members:
+                continue
+            try:
+                c.select(subarray=s, spw=w)
+            except Exception as e:      # noqa: BLE001
+                cs.disagree('stage=sizes;what=select_raises', repr(e), None, 'select(subarray=s, spw=w) raised', sw=[s, w])
+                continue
+            tk = [bool(x) for x in c._time_keep]
+            exp_tk = [i in members for i in range(len(tws)) for _ in range(segs[i + 1] - segs[i])]
+            if tk != exp_tk:
+                cs.disagree('stage=sizes;what=time_mask', [int(x) for x in tk], None,
+                            'select(subarray=s, spw=w) does not keep exactly the dumps of the parts of that subarray and window',
+                            spec=[int(x) for x in exp_tk], sw=[s, w])
+                continue
+            tail = list(arrs[members[0]]['vis'].shape[1:])
+            wparts, nxt = [], 0
+            for i, a in enumerate(arrs):
+                T = a['vis'].shape[0]
+                base = 0 if T == 0 else -(-nxt // T)
+                nxt = base * T + T
+                wparts.append([list(a['vis'].shape[1:]), T, [int(x) for x in tk[segs[i]:segs[i + 1]]], base])
+            mo = ctx.model([[196, [int(strict), tail, [[1] * tail[0], [1] * tail[1]], 0, wparts, [[1, [], [], []]]]]])[0]
+            if mo[1][0] == 0:
+                cs.disagree('stage=sizes;what=spec_refuses', None, mo[0], 'the spec of the sized model refuses', kind='tie', sw=[s, w])
+                continue
+            for arr in ARRAYS:
+                exp = np.concatenate([arrs[i][arr] for i in members])
+                for label, idx in (('all', slice(None)), ('int', 0), ('slice', slice(1, None, 2)), ('mask', np.arange(len(exp)) % 2 == 0)):
+                    try:
+                        got = np.asarray(getattr(c, arr)[idx])
+                    except Exception as e:      # noqa: BLE001
+                        if strict and arr != 'timestamps' and isinstance(e, IndexError) and len({a['vis'].shape[1:] for a in arrs}) > 1:
+                            # open finding C19-F5: DaskLazyIndexer.shape of the parts of another size
+                            ctx.disagree('stage=sizes;what=v4_part_of_other_size_raises;exc=IndexError', cs.doc(sw=[s, w], array=arr), repr(e),
+                                         mo[0], 'vis / flags / weights of a concatenation of v4 data sets whose spectral windows / subarrays '
+                                         'differ in size cannot be read', spec=list(exp[idx].shape))
+                            if mo[0][0] != 0:
+                                cs.disagree('stage=sizes;what=raises_vs_model', repr(e), mo[0][2], 'model answers, implementation raises', kind='tie', sw=[s, w])
+                        else:
+                            cs.disagree('stage=sizes;array=%s;index=%s;what=raises' % (arr, label), repr(e), None,
+                                        'reading an array of a concatenation with parts of another size raised', spec=list(exp[idx].shape), sw=[s, w])
+                        break
+                    ctx.traces_validated += 1
+                    if not nan_eq(squeeze1(got), squeeze1(exp[idx])):
+                        cs.disagree('stage=sizes;array=%s;index=%s;what=wrong_%s' % (arr, label, 'shape' if squeeze1(got).shape != squeeze1(exp[idx]).shape else 'data'),
+                                    list(got.shape), None, 'the whole is not the glued parts of the selected subarray and window',
+                                    spec=list(exp[idx].shape), sw=[s, w])
+                        break
+                    if label == 'all' and arr == 'vis':
+                        if mo[0][0] == 0:
+                            cs.disagree('stage=sizes;what=model_rejects', list(got.shape), 'Err', 'model refuses, implementation answers', kind='tie', sw=[s, w])
+                        elif list(mo[0][2]) != list(got.shape) or mo[0] != mo[1]:
+                            cs.disagree('stage=sizes;what=shape_vs_model', list(got.shape), mo[0][2], 'shape differs from the sized model', kind='tie', sw=[s, w])
+            ctx.count('sizes_pairs_compared;%s' % ('v4' if strict else 'h5'))
+    try:
+        c.select(subarray=0, spw=0)
+    except Exception:      # noqa: BLE001
+        pass
+
+
 def stage_multi_plain(cs, c, twins, arrays, sorted_idx, rng, mkeeps=None):
     """format mixtures (timestamps of v3 and v4 parts are not on one dump grid: no C02 observation): select(subarray=s,
     spw=w, **criteria that need no index translation) on the whole against the same criteria on the parts alone"""
@@ -1411,6 +1496,8 @@ def run_case(ctx, cseed, gen=None, stages=('open', 'data', 'select', 'scans', 'o
                 stage_scans(cs, ob, drng)
             if 'select' in stages and cs.bad == 0 and ((not single and gen['mixed']) or offgrid):
                 stage_multi_plain(cs, c, twins, arrays, sorted_idx, drng)
+            if 'select' in stages and not single and cs.bad == 0 and not same_shape and not gen['mixed']:
+                stage_sizes(cs, c, twins, arrays, sorted_idx)
             if 'select' in stages and not single and cs.bad == 0 and same_shape and not gen['mixed'] and not offgrid:
                 wp = [part_wire(infos[i], t_epoch, unit, starts, dps, names) for i in order]
                 stage_multi(cs, c, parts, twins, infos, arrays, sorted_idx, wp, names, ctx.scale(1, 2))
@@ -1624,7 +1711,7 @@ def run(ctx):
         kinds[qkind(cs.gen)] = kinds.get(qkind(cs.gen), 0) + 1
     # every run meets every special kind of case a few times, whatever the seed
     quota = {'period': ctx.scale(3, 30), 'periodclose': ctx.scale(3, 30), 'tie': ctx.scale(2, 20), 'subarray': ctx.scale(2, 30), 'spw': ctx.scale(2, 30),
-             'subperm': ctx.scale(3, 30), 'overlap': ctx.scale(4, 40), 'subdesc': ctx.scale(2, 20), 'spwvar': ctx.scale(3, 30), 'multi': ctx.scale(3, 40)}
+             'subperm': ctx.scale(3, 30), 'overlap': ctx.scale(4, 40), 'sizes': ctx.scale(4, 40), 'subdesc': ctx.scale(2, 20), 'spwvar': ctx.scale(3, 30), 'multi': ctx.scale(3, 40)}
     tries = 0
     while any(kinds.get(k, 0) < q for k, q in quota.items()) and tries < 20000:
         tries += 1
